@@ -185,13 +185,16 @@ example : ∃ conn, fromReaders false csvPlain w1Right w1Left w1Cost = .ok conn 
     w1Cost.length + 1 ≤ INVALID := by
   refine ⟨_, rfl, by decide⟩
 
-/-- With both feature files empty `from_readers` panics (`chunks_mut(0)`) instead of returning
-`Err` (verified on the real crate). -/
-theorem raw_from_readers_empty_panics (fixed : Bool) (csv : Str → Outcome (List Str)) :
-    (match fromReaders fixed csv [] [] w1Cost with
+/-- Pinned tree: with both feature files empty `from_readers` panics (`chunks_mut(0)`) instead of
+returning `Err` (verified on the real crate, finding F17); the repaired code returns `Err`. -/
+theorem raw_from_readers_empty_panics (csv : Str → Outcome (List Str)) :
+    (match fromReaders false csv [] [] w1Cost with
       | .panic => true
+      | _ => false) = true ∧
+    (match fromReaders true csv [] [] w1Cost with
+      | .err => true
       | _ => false) = true := by
-  cases fixed <;> rfl
+  exact ⟨rfl, rfl⟩
 
 /-- Remark on "`*` counts as 0": the code has no special case for `*`; it is an ordinary feature
 string that is simply never listed in a trained `bigram.cost`.  If it *is* listed, it counts. -/
@@ -320,7 +323,7 @@ theorem dual_pinned_panics_below_8 (oc : Bool) (csv : Str → Outcome (List Str)
     DualConnector.fromReaders false oc csv split right left cost = .panic := by
   unfold DualConnector.fromReaders
   rw [hb]
-  simp only [hs]
+  simp only [hs, Bool.false_eq_true, false_and, if_false]
   have : DualConnector.createMatrix false oc b.rightRows b.leftRows
       (DualConnector.matrixIndices b.K split) b.K s = .panic := by
     unfold DualConnector.createMatrix
